@@ -69,6 +69,12 @@ def wrap_1d(kind, data, name):
     if kind == "array2d":
         k = 2 if len(data) % 2 == 0 and len(data) else 1
         return arr.reshape(k, -1)
+    if kind == "array2d_fortran":  # same logical array, column-major memory layout
+        k = 2 if len(data) % 2 == 0 and len(data) else 1
+        return np.asfortranarray(arr.reshape(k, -1))
+    if kind == "array2d_view":  # a transposed view: logical order differs from memory order
+        k = 2 if len(data) % 2 == 0 and len(data) else 1
+        return np.ascontiguousarray(arr.reshape(k, -1).T).T
     if kind == "pd_series":
         return pd.Series(arr, name=name)
     if kind == "pd_series_int":
@@ -96,7 +102,7 @@ def check_1d(case, ctx: Ctx):
 
     data = [float(x) for x in case["data"]]
     kind = case["kind"]
-    if not data and kind in ("nested", "array2d"):
+    if not data and kind in ("nested", "array2d", "array2d_fortran", "array2d_view"):
         kind = "list"  # an empty nested container has no second dimension
     ps = case["pairs"]
     edges = np.array([p[0] for p in ps] + [ps[-1][1]])
@@ -113,7 +119,7 @@ def check_1d(case, ctx: Ctx):
     kw = {"dropna": case["dropna"]}
     if ws is not None:
         warr = np.array(ws, dtype=np.int64 if all(isinstance(x, int) for x in ws) else np.float64)
-        if kind in ("nested", "array2d"):
+        if kind in ("nested", "array2d", "array2d_fortran", "array2d_view"):
             k = 2 if len(data) % 2 == 0 and len(data) else 1
             warr = warr.reshape(k, -1)
         wkind = case.get("wcontainer", "array")
@@ -121,11 +127,11 @@ def check_1d(case, ctx: Ctx):
             kw["weights"] = warr  # (an empty python list has no element type)
         elif wkind == "list":
             kw["weights"] = warr.tolist()
-        elif wkind == "pd_series" and kind not in ("nested", "array2d"):
+        elif wkind == "pd_series" and kind not in ("nested", "array2d", "array2d_fortran", "array2d_view"):
             import pandas as pd
 
             kw["weights"] = pd.Series(warr)  # keeps the integer / float element type
-        elif wkind == "pl_series" and kind not in ("nested", "array2d"):
+        elif wkind == "pl_series" and kind not in ("nested", "array2d", "array2d_fortran", "array2d_view"):
             import polars as pl
 
             kw["weights"] = pl.Series("w", warr)
@@ -139,7 +145,7 @@ def check_1d(case, ctx: Ctx):
         refkw["weights"] = warr
     container = wrap_1d(kind, data, name)
     arr = np.array(data, dtype=float)
-    if kind in ("nested", "array2d") and len(data):
+    if kind in ("nested", "array2d", "array2d_fortran", "array2d_view") and len(data):
         arr = arr.reshape(2 if len(data) % 2 == 0 else 1, -1)
     if has_nan and not case["dropna"]:
         ctx.label("refusal_nan_without_dropna")
@@ -178,7 +184,7 @@ def cases_1d(draw, tier="quick"):
     data = draw(gen.values_for(ps, 0, 25, allow_nan=nan))
     if nan and data and draw(st.booleans()):
         data[draw(st.integers(0, len(data) - 1))] = float("nan")
-    kind = draw(st.sampled_from(["list", "tuple", "iterator", "generator", "nested", "array2d", "pd_series", "pd_series", "pd_series", "pd_series_int",
+    kind = draw(st.sampled_from(["list", "tuple", "iterator", "generator", "nested", "array2d", "array2d_fortran", "array2d_view", "pd_series", "pd_series", "pd_series", "pd_series_int",
                                  "pd_series_Int64", "pd_series_Int64", "pl_series", "pl_series", "pl_series_int", "pl_frame1", "dask"]))
     wk, ws = draw(gen.weights_for(len(data), kinds=("none", "int", "dyadic")))
     wcont = draw(st.sampled_from(["array", "array", "list", "pd_series", "pl_series"]))
